@@ -249,6 +249,19 @@ def run(E: Engine, rep: Report, tier: str) -> dict:
                     if pa and pb and pa["Q_e"] == pb["Q_e"] and pa["Q_e"][0] == "elem" and sorted((pa["Q_s"] == ("name", "seq"), pb["Q_s"] == ("name", "seq"))) == [False, True] and any(_symS.contains(t_, ("name", "new_device")) or t_ == ("name", "new_seq") for t_ in (pa["Q_s"], pb["Q_s"])):
                         got_q.add(q)
     eom_sample_cmp = got_q == {"amp", "det", "phase"}
+    rep.check(eom_sample_cmp, "TABLE", "switch_device|strict-compares-eom-samples-as-sampled", "under strict, amp/det/phase of <old>._schedule[ch].get_samples() and <new>._schedule[ch].get_samples() are compared directly",
+              f"the strict comparison of the EOM channels' samples no longer compares get_samples() of the old and the new schedule as they are (found: {sorted(got_q)}): padding / truncating them first hides a difference in duration (e.g. another EOM buffer time), and a strict switch then returns a different timeline", E.where(bsm))
+    # every replayed DMM configuration renames its entry of the channel map to the name the DMM got in the NEW
+    # sequence (dmm_0, dmm_0_1, ...), unconditionally: later add_dmm_detuning calls are routed through that entry
+    Sb = _SS(E, bsm)
+    ren = [l for l in Sb.logged("store") if l.target is not None and l.target[0] == "idx" and l.value is not None and any(t[0] == "call" and t[1] == ("name", "_get_dmm_name") for t in _symS.subterms(l.value)) and _symS.contains(l.target[1], ("name", "channel_match"))]
+    apps = [l for l in Sb.log if l.kind == "call" and l.target is not None and l.target[0] == "attr" and l.target[2] == "append" and _symS.contains(l.target[1], ("name", "dmm_calls")) or (l.kind == "call" and l.target is not None and l.target[0] == "attr" and l.target[2] == "append" and l.value[2] and any(t[0] == "call" and t[1] == ("name", "_get_dmm_name") for t in _symS.subterms(l.value[2][0])))]
+    if not ren or not apps:
+        raise AnalysisError("anchor: the DMM renaming of channel_match in build_sequence_from_matching was not found")
+    base_cond = set(_symS.conj_of(apps[0].cond))
+    for l in ren:
+        extra_c = [x for x in _symS.conj_of(l.cond) if x not in base_cond]
+        rep.check(not extra_c, "TABLE", "switch_device|dmm-entry-renamed-for-every-replayed-configuration", "channel_match[<dmm>] = name in the new sequence, on every replayed DMM configuration", f"the channel-map entry of a replayed DMM configuration is renamed only under `{[_symS.show(x)[:80] for x in extra_c]}`: when the condition fails, a later add_dmm_detuning on that DMM is replayed onto another DMM of the new sequence", E.where(bsm, l.node))
     # the strict block must precede the return of the new sequence
     # ---------------------------------------------------------- verdicts
     where = E.where(ccm)
